@@ -28,7 +28,11 @@ EosOrder(t) == CASE t = "lf" -> 2 [] t = "lf4" -> 4 [] t = "lf6" -> 6 [] t = "lf
                  [] t = "plf7_6_4" -> 4 [] t = "pmlf4" -> 4 [] t = "pmlf6" -> 6
 Advertised == [leapfrog |-> 2, whfast |-> 2, saba |-> 2, mercurius |-> 2, trace |-> 2, janus2 |-> 2, janus4 |-> 4, janus6 |-> 6,
                eos_lf |-> 2, eos_lf4 |-> 4, eos_lf6 |-> 6, eos_lf8 |-> 8, eos_pmlf4 |-> 4, eos_pmlf6 |-> 6,
-               eos_lf4_2 |-> EosOrder("lf4_2"), eos_lf864 |-> EosOrder("lf8_6_4"), eos_plf764 |-> EosOrder("plf7_6_4")]
+               eos_lf4_2 |-> EosOrder("lf4_2"), eos_lf864 |-> EosOrder("lf8_6_4"), eos_plf764 |-> EosOrder("plf7_6_4"),
+               \* order in dt of each splitting type on its own; an EOS(phi0, phi1) scheme has the smaller of the two
+               eostype_lf |-> EosOrder("lf"), eostype_lf4 |-> EosOrder("lf4"), eostype_lf6 |-> EosOrder("lf6"), eostype_lf8 |-> EosOrder("lf8"),
+               eostype_lf4_2 |-> EosOrder("lf4_2"), eostype_lf8_6_4 |-> EosOrder("lf8_6_4"), eostype_plf7_6_4 |-> EosOrder("plf7_6_4"),
+               eostype_pmlf4 |-> EosOrder("pmlf4"), eostype_pmlf6 |-> EosOrder("pmlf6")]
 
 MassSets == {<<5, 1, 2, 3>>, <<8, 2, 1, 4>>}
 WhfastAllOpts == {Cfg("whfast", co, k, cr, 0, TRUE, FALSE, 0, 0, "-", 0, FALSE) : co \in Coords, k \in Kernels, cr \in Correctors}
